@@ -33,7 +33,7 @@ from entity_query_language import (an, a, the, entity, set_of, let, and_, or_, n
 
 from .alg import OPS, MIRROR, NEG
 
-CALLS = {"pos": 0, "BigP": 0, "m": 0, "big": 0}
+CALLS = {"pos": 0, "BigP": 0, "m": 0, "big": 0, "exceeds": 0, "Above": 0}
 
 
 @symbol
@@ -118,6 +118,24 @@ def pos(x):
     return x.a > 0
 
 
+@predicate
+def exceeds(k, x):
+    """Two-argument predicate with the variable in the SECOND position."""
+    CALLS["exceeds"] += 1
+    return x.a > k
+
+
+@dataclass(eq=False)
+class Above(Predicate):
+    """Predicate subclass with a constant first field and the variable second."""
+    k: Any
+    it: Any
+
+    def __call__(self):
+        CALLS["Above"] += 1
+        return self.it.b > self.k
+
+
 FAULT = {"armed": False, "j": None, "count": 0, "raised": 0}
 
 
@@ -185,7 +203,7 @@ def cond_vars(c) -> List[str]:
             opv(c[2]); opv(c[3])
         elif k in ("in", "contains"):
             opv(c[1]); opv(c[2])
-        elif k in ("flag", "m", "pf", "PC", "HT", "ff"):
+        elif k in ("flag", "m", "pf", "PC", "HT", "ff", "pf2", "PC2"):
             if c[1] not in out:
                 out.append(c[1])
         elif k == "big":
@@ -334,6 +352,10 @@ def build(c, V):
         return BigP(it=V[c[1]])
     if k == "ff":
         return faulty(V[c[1]])
+    if k == "pf2":
+        return exceeds(c[2], V[c[1]])
+    if k == "PC2":
+        return Above(k=c[2], it=V[c[1]])
     if k == "HT":
         from entity_query_language import HasType
         return HasType(variable=V[c[1]], types_=SubItem)
@@ -408,6 +430,10 @@ def holds(alg, c, env, pools=None):
         return alg.cmp("gt", env[c[1]].a, 0)
     if k == "PC":
         return alg.cmp("gt", env[c[1]].b, 1)
+    if k == "pf2":
+        return alg.cmp("gt", env[c[1]].a, c[2])
+    if k == "PC2":
+        return alg.cmp("gt", env[c[1]].b, c[2])
     if k == "HT":
         return alg.const(isinstance(env[c[1]], SubItem))
     if k in ("and", "&"):
@@ -453,6 +479,8 @@ def leaf_vocabulary(v="x", rich=True):
         L.append(["cmp", "ge", ["d", v], ["a", v, "a"]])
         L.append(["pf", v])
         L.append(["PC", v])
+        L.append(["pf2", v, 1])
+        L.append(["PC2", v, 0])
     return L
 
 
